@@ -1,12 +1,121 @@
 (* C17 — Equalities and orderings are lawful and agree with each other.
-   Only theorem statements closed by [exact]; the proofs are in Proofs/. *)
-From Coq Require Import List ZArith QArith String Bool.
-From SMD Require Import Model.Value Model.Order Model.PathElem Model.Matcher.
+   This file holds only statements; every theorem is closed by [exact] of a lemma
+   proved in Proofs/OrderLaws.v, followed by Print Assumptions.
 
-(* integers and floats compare numerically *)
+   The model's comparison functions (Model/Order.v, Model/PathElem.v, Model/Matcher.v)
+   are transliterations of value.Compare/Equals/Less, FieldList.Compare/Equals,
+   PathElement.Compare/Equals/Less, Path.Compare/Equals and
+   PathElementMatcher.Compare/Equals/Less.  [wf_value] is the representation invariant
+   of model maps (unique, sorted keys) which Go maps satisfy by construction. *)
+From Coq Require Import List ZArith QArith String Bool.
+From SMD Require Import Model.Value Model.Order Model.PathElem Model.Matcher Proofs.OrderLaws.
+Import ListNotations.
+
+(* ---- a lawful total preorder, stated once ---- *)
+Definition lawful {A} (cmp : A -> A -> comparison) : Prop :=
+  (forall a b, cmp a b = CompOpp (cmp b a)) /\                       (* antisymmetric *)
+  (forall a b c, cmp a b = Lt -> cmp b c = Lt -> cmp a c = Lt) /\    (* transitive *)
+  (forall a b c, cmp a b = Eq -> cmp a c = cmp b c) /\               (* equal elements *)
+  (forall a b c, cmp b c = Eq -> cmp a b = cmp a c).                 (* are interchangeable *)
+
+(* ---- values ---- *)
+Theorem C17_value_order_lawful : lawful vcmp.
+Proof. exact (conj vcmp_antisym (conj vcmp_trans_lt (conj vcmp_eq_l vcmp_eq_r))). Qed.
+Print Assumptions C17_value_order_lawful.
+
+Theorem C17_value_compare_zero_iff_equals : forall a b,
+  wf_value a = true -> wf_value b = true -> (vcmp a b = Eq <-> veqb a b = true).
+Proof. exact vcmp_eq_iff_veqb. Qed.
+Print Assumptions C17_value_compare_zero_iff_equals.
+
+Theorem C17_value_less_iff_negative : forall a b, vless a b = true <-> vcmp a b = Lt.
+Proof. exact vless_iff. Qed.
+Print Assumptions C17_value_less_iff_negative.
+
+Theorem C17_value_equals_reflexive : forall a, wf_value a = true -> veqb a a = true.
+Proof. exact veqb_refl. Qed.
+Print Assumptions C17_value_equals_reflexive.
+
+Theorem C17_value_equals_symmetric : forall a b,
+  wf_value a = true -> wf_value b = true -> veqb a b = veqb b a.
+Proof. exact veqb_sym. Qed.
+Print Assumptions C17_value_equals_symmetric.
+
+(* integers and floats compare numerically (exact rational comparison; it coincides
+   with Go's float64(int) comparison for |int| <= 2^53, the domain of the property) *)
 Theorem C17_int_float_numeric : forall z q,
   vcmp (VInt z) (VFloat q) = Qcompare (inject_Z z) q /\
   vcmp (VFloat q) (VInt z) = Qcompare q (inject_Z z) /\
   veqb (VInt z) (VFloat q) = Qeq_bool (inject_Z z) q.
-Proof. intros z q. repeat split. Qed.
+Proof. exact (fun z q => conj (vcmp_int_float z q) (conj (vcmp_float_int z q) (veqb_int_float z q))). Qed.
 Print Assumptions C17_int_float_numeric.
+
+(* ---- key lists ---- *)
+Theorem C17_keylist_order_lawful : lawful fl_cmp.
+Proof. exact (conj fl_cmp_antisym (conj fl_cmp_trans_lt (conj fl_cmp_eq_l fl_cmp_eq_r))). Qed.
+Print Assumptions C17_keylist_order_lawful.
+
+Theorem C17_keylist_compare_zero_iff_equals : forall a b,
+  wf_fl a = true -> wf_fl b = true -> (fl_cmp a b = Eq <-> fl_eqb a b = true).
+Proof. exact fl_cmp_eq_iff. Qed.
+Print Assumptions C17_keylist_compare_zero_iff_equals.
+
+Theorem C17_keylist_equals_refl_sym : forall a b, wf_fl a = true -> wf_fl b = true ->
+  fl_eqb a a = true /\ fl_eqb a b = fl_eqb b a.
+Proof. exact (fun a b Ha Hb => conj (fl_eqb_refl a Ha) (fl_eqb_sym a b Ha Hb)). Qed.
+Print Assumptions C17_keylist_equals_refl_sym.
+
+(* ---- path elements ---- *)
+Theorem C17_pathelement_order_lawful : lawful pecmp.
+Proof. exact (conj pecmp_antisym (conj pecmp_trans_lt (conj pecmp_eq_l pecmp_eq_r))). Qed.
+Print Assumptions C17_pathelement_order_lawful.
+
+Theorem C17_pathelement_compare_zero_iff_equals : forall a b,
+  wf_pe a = true -> wf_pe b = true -> (pecmp a b = Eq <-> peeqb a b = true).
+Proof. exact pecmp_eq_iff. Qed.
+Print Assumptions C17_pathelement_compare_zero_iff_equals.
+
+Theorem C17_pathelement_less_iff_negative : forall a b, peless a b = true <-> pecmp a b = Lt.
+Proof. exact peless_iff. Qed.
+Print Assumptions C17_pathelement_less_iff_negative.
+
+Theorem C17_pathelement_equals_refl_sym : forall a b, wf_pe a = true -> wf_pe b = true ->
+  peeqb a a = true /\ peeqb a b = peeqb b a.
+Proof. exact (fun a b Ha Hb => conj (peeqb_refl a Ha) (peeqb_sym a b Ha Hb)). Qed.
+Print Assumptions C17_pathelement_equals_refl_sym.
+
+(* ---- paths ---- *)
+Theorem C17_path_order_lawful : lawful pathcmp.
+Proof. exact (conj pathcmp_antisym (conj pathcmp_trans_lt (conj pathcmp_eq_l pathcmp_eq_r))). Qed.
+Print Assumptions C17_path_order_lawful.
+
+Theorem C17_path_compare_zero_iff_equals : forall a b,
+  wf_path a = true -> wf_path b = true -> (pathcmp a b = Eq <-> patheqb a b = true).
+Proof. exact pathcmp_eq_iff. Qed.
+Print Assumptions C17_path_compare_zero_iff_equals.
+
+Theorem C17_path_equals_refl_sym : forall a b, wf_path a = true -> wf_path b = true ->
+  patheqb a a = true /\ patheqb a b = patheqb b a.
+Proof. exact (fun a b Ha Hb => conj (patheqb_refl a Ha) (patheqb_sym a b Ha Hb)). Qed.
+Print Assumptions C17_path_equals_refl_sym.
+
+(* ---- path-element matchers (the code as repaired by the fix: commits 88a4998) ---- *)
+Theorem C17_matcher_order_lawful : lawful pm_cmp.
+Proof. exact (conj pm_cmp_antisym (conj pm_cmp_trans_lt (conj pm_cmp_eq_l pm_cmp_eq_r))). Qed.
+Print Assumptions C17_matcher_order_lawful.
+
+Theorem C17_matcher_compare_zero_iff_equals : forall a b,
+  wf_pm a = true -> wf_pm b = true -> (pm_cmp a b = Eq <-> pm_eqb a b = true).
+Proof. exact pm_cmp_eq_iff. Qed.
+Print Assumptions C17_matcher_compare_zero_iff_equals.
+
+Theorem C17_matcher_less_iff_negative : forall a b, pm_less a b = true <-> pm_cmp a b = Lt.
+Proof. exact pm_less_iff. Qed.
+Print Assumptions C17_matcher_less_iff_negative.
+
+(* ---- non-vacuity: the hypotheses are met by concrete, non-trivial data ---- *)
+Example C17_wf_example :
+  let a := VMap [("a"%string, VInt 1); ("b"%string, VList [VFloat (1 # 2); VNull])] in
+  let b := VMap [("a"%string, VFloat (2 # 2)); ("b"%string, VList [VFloat (2 # 4); VNull])] in
+  wf_value a = true /\ wf_value b = true /\ veqb a b = true /\ vcmp a b = Eq /\ a <> b.
+Proof. repeat split; try reflexivity. discriminate. Qed.
